@@ -440,6 +440,7 @@ def run(res: Results, idx: Index, tier: str) -> None:
                 else:
                     res.violation("R-C13d", site, key, f"{what} is changed but no enclosing/following `finally` restores it", fi.qualname)
 
+    rule_e(res, idx, mods)
     _controls(res)
 
 
@@ -504,3 +505,84 @@ def _controls(res: Results) -> None:
     fired = any(i.status == "VIOLATION" and "before the restoring" in i.detail for i in tmp.instances) and any(i.status == "VIOLATION" and "restore-order" in i.key for i in tmp.instances)
     res.control("R-C13a", "loop of setattr before try + forward-order restore is flagged", fired)
     res.control("R-C13b", "module-level `jnp.foo = 1` resolves to a third-party namespace", any(host_root(m, n.targets[0].value) == "jax" for n in m.tree.body if isinstance(n, ast.Assign) and isinstance(n.targets[0], ast.Attribute)))
+
+
+# ---------------------------------------------------------------------------------------------- R-C13e
+def rule_e(res: Results, idx: Index, mods) -> None:
+    """Save-before-write: in every context manager that patches attributes with setattr, the original is read
+    (getattr on the same target and attribute) before the write in the same iteration, and the value written
+    back in `finally` is that saved original."""
+    res.rule("R-C13e", "patching context managers read the original before overwriting it and restore exactly that saved value", floor=2)
+    for m in mods:
+        for fi in m.funcs.values():
+            decos = {(dotted(d) or "").split(".")[-1] for d in getattr(fi.node, "decorator_list", [])}
+            if "contextmanager" not in decos:
+                continue
+            tries = [t for t in walk_no_nested(fi.node) if isinstance(t, ast.Try) and t.finalbody]
+            sets = [c for c in walk_no_nested(fi.node) if isinstance(c, ast.Call) and (call_name(c) or "") == "setattr" and len(c.args) == 3 and isinstance(c.args[0], ast.Name) and not _own_object(c.args[0].id)]
+            fwd = [c for c in sets if not any(_in_block(c, t.finalbody) for t in tries)]
+            back = [c for c in sets if any(_in_block(c, t.finalbody) for t in tries)]
+            if not fwd or not back:
+                continue
+            g = None
+            from ..cfg import cfg_of
+            g = cfg_of(fi.node)
+            du = defuse(fi.node)
+            saved_names: Set[str] = set()
+            for i, c in enumerate(sorted(fwd, key=lambda x: x.lineno)):
+                tgt, attr = ast.unparse(c.args[0]), ast.unparse(c.args[1])
+                key = f"{m.rel}::{fi.qualname}::save-before-write#{i}"
+                reads = [r for r in walk_no_nested(fi.node) if isinstance(r, ast.Call) and (call_name(r) or "") == "getattr" and len(r.args) >= 2 and ast.unparse(r.args[0]) == tgt and ast.unparse(r.args[1]) == attr]
+                good = []
+                for r in reads:
+                    st = enclosing_stmt(r)
+                    if isinstance(st, (ast.Assign, ast.AnnAssign)) and st is not None and g.dominates(st, enclosing_stmt(c)) and st.lineno < c.lineno:
+                        t = st.targets[0] if isinstance(st, ast.Assign) else st.target
+                        if isinstance(t, ast.Name):
+                            good.append(t.id)
+                if good:
+                    saved_names |= set(good)
+                    res.ok("R-C13e", f"{m.rel}:{c.lineno}", key, f"`{good[0]} = getattr({tgt}, {attr}, …)` precedes the write", fi.qualname)
+                else:
+                    res.violation("R-C13e", f"{m.rel}:{c.lineno}", key, f"setattr({tgt}, {attr}, …) is not preceded by a read of the original on every path: the value restored later is not the pre-patch value", fi.qualname)
+            # what is written back?
+            carriers = du.forward(saved_names) if saved_names else set()
+            for i, c in enumerate(sorted(back, key=lambda x: x.lineno)):
+                key = f"{m.rel}::{fi.qualname}::restore-value#{i}"
+                v = c.args[2]
+                names = du.closure(names_in(v)) | names_in(v)
+                keyed = any(isinstance(x, ast.Constant) and isinstance(x.value, str) and x.value in saved_names for x in ast.walk(v))
+                # same tuple position: `for a, b, orig in reversed(applied)` where applied.append((a, b, orig))
+                positional = False
+                if isinstance(v, ast.Name):
+                    for d in du.defs.get(v.id, []):
+                        if d.kind in ("for", "comp") and d.index is not None and d.value is not None:
+                            for coll in names_in(d.value):
+                                for app in walk_no_nested(fi.node):
+                                    if isinstance(app, ast.Call) and isinstance(app.func, ast.Attribute) and app.func.attr == "append" and isinstance(app.func.value, ast.Name) and app.func.value.id == coll and app.args and isinstance(app.args[0], ast.Tuple):
+                                        elts = app.args[0].elts
+                                        if d.index < len(elts) and isinstance(elts[d.index], ast.Name) and elts[d.index].id in saved_names:
+                                            positional = True
+                # record-style storage: {"orig": orig, …} written, st["orig"] / st.get("orig") read back
+                rec_keys = {}
+                for dct in walk_no_nested(fi.node):
+                    if isinstance(dct, ast.Dict):
+                        for kk, vv in zip(dct.keys, dct.values):
+                            if isinstance(kk, ast.Constant) and isinstance(kk.value, str) and isinstance(vv, ast.Name):
+                                rec_keys[kk.value] = vv.id
+                acc_key = None
+                if isinstance(v, ast.Subscript) and isinstance(v.slice, ast.Constant) and isinstance(v.slice.value, str):
+                    acc_key = v.slice.value
+                elif isinstance(v, ast.Call) and isinstance(v.func, ast.Attribute) and v.func.attr == "get" and v.args and isinstance(v.args[0], ast.Constant):
+                    acc_key = v.args[0].value
+                if acc_key is not None:
+                    via_record = rec_keys.get(acc_key) in saved_names
+                    if via_record:
+                        res.ok("R-C13e", f"{m.rel}:{c.lineno}", key, f"`{src(v, 30)}` reads the saved original back from its record", fi.qualname)
+                    else:
+                        res.violation("R-C13e", f"{m.rel}:{c.lineno}", key, f"the finally block writes back `{src(v, 40)}`; the record field {acc_key!r} does not hold the value saved before patching", fi.qualname)
+                    continue
+                if (names & saved_names) or keyed or positional or (names & carriers and not isinstance(v, ast.Constant)):
+                    res.ok("R-C13e", f"{m.rel}:{c.lineno}", key, f"`{src(v, 30)}` is the saved original", fi.qualname)
+                else:
+                    res.violation("R-C13e", f"{m.rel}:{c.lineno}", key, f"the finally block writes back `{src(v, 40)}`, which is not the value saved before patching", fi.qualname)
